@@ -205,6 +205,104 @@ def gen_ctx(rng):
     return {k: [n for n in pool if rng.random() < 0.45] for k in CTX_KEYS}
 
 
+# --------------------------------------------------------------------------- part (a'): comprehensions, direct calls
+FALSY = {"int": [0, 0, 7], "float": [0.0, 0.0, 2.5], "bool": [False, False, True], "String": ["", "", "ab"]}
+
+
+def comp_src(c):
+    return c["elt"] if c["targets"] == [] else None
+
+
+def render_comp(targets, elt):
+    src = elt
+    for t, n in reversed(targets):
+        src = f"[{src} for {t} in range({n})]"
+    return src
+
+
+def enc_rhs(targets, elt):
+    w = [0, W.enc_src(elt)]
+    for t, n in reversed(targets):
+        w = [1, t, W.enc_src(n), w]
+    return w
+
+
+def part_a_comp(ctx, stats):
+    """[elt for t in range(n)] (nested up to 2): real _infer_expr_type (label, var_types afterwards) and real _to_c_expr
+    (var_types afterwards, with folded constants of every truthiness bound to the names) vs Lang/InferComp.v"""
+    rng = ctx.rng
+    n = 900 if ctx.tier == "thorough" else 260
+    cases = []
+    fixed = [([("a", "3")], "a * 2"), ([("a", "3")], "a * 0.5"), ([("s", "2")], "s + 1"), ([("zz", "4")], "zz + a"), ([("a", "b")], "b"),
+             ([("xs", "2")], "xs"), ([("a", "2"), ("b", "3")], "a * b"), ([("a", "2"), ("a", "3")], "a + 0.5"), ([("s", "2")], "t + s"),
+             ([("a", "2")], "s + a"), ([("c", "2")], "[c, a]"), ([("a", "3")], "f(a)"), ([("e", "1")], "e if c else 2.5"), ([("a", "0")], "a > 1")]
+    for targets, elt in fixed:
+        for _ in range(3):
+            fs, al = gen_functions(rng)
+            cases.append({"targets": targets, "elt": elt, "var_types": gen_env(rng), "functions": fs, "aliases": al, "ctx": gen_ctx(rng)})
+    for _ in range(n):
+        targets = [(rng.choice(NAMES + ["zz", "i"]), rng.choice(["3", "0", "a", "b", "len(xs)"])) for _ in range(rng.choice([1, 1, 1, 2]))]
+        elt = gen_typed_expr(rng, rng.choice([0, 1, 2, 2]), names=NAMES + [targets[-1][0]] * 4)
+        fs, al = gen_functions(rng)
+        cases.append({"targets": targets, "elt": elt, "var_types": gen_env(rng), "functions": fs, "aliases": al, "ctx": gen_ctx(rng)})
+    for c in cases:
+        if c["ctx"] is None:
+            c["aliases"] = {}
+        c["src"] = render_comp(c["targets"], c["elt"])
+        c["vars"] = {}
+        for name, lab in c["var_types"].items():
+            if lab in FALSY and rng.random() < 0.7:
+                c["vars"][name] = rng.choice(FALSY[lab])
+    impl = C.run_impl("c02_impl.py", {"cases": [["infer", c] for c in cases] + [["toc", c] for c in cases]})
+    r_inf, r_toc = impl[:len(cases)], impl[len(cases):]
+    wire = [[9, enc_ictx(c["ctx"] if c["ctx"] is not None else None), enc_functions(c["functions"]), enc_aliases(c["aliases"]),
+             enc_tenv(c["var_types"]), enc_rhs(c["targets"], c["elt"])] for c in cases]
+    model = ctx.model(wire) if ctx.exe else [None] * len(cases)
+    st = {"cases": len(cases), "labels": {}, "target_shadows_label": {}, "toc_compared": 0, "toc_untranslatable": 0,
+          "shadowed_name_bound_to_a_falsy_constant": 0, "var_types_mutated_by_contagion": 0}
+    for c, r, t, m in zip(cases, r_inf, r_toc, model):
+        for tg, _ in c["targets"]:
+            lab = c["var_types"].get(tg, "(unbound)")
+            st["target_shadows_label"][lab] = st["target_shadows_label"].get(lab, 0) + 1
+            if tg in c["vars"] and not c["vars"][tg]:
+                st["shadowed_name_bound_to_a_falsy_constant"] += 1
+        key = ("raises " + r["exc"]) if "exc" in r else r["label"]
+        st["labels"][key] = st["labels"].get(key, 0) + 1
+        if "exc" in r and r["exc"] != "ValueError":
+            ctx.fail("_infer_expr_type raised something other than ValueError on a comprehension", c, "label or ValueError", r, key="infer-exc")
+        if m is None:
+            continue
+        if m == [2]:
+            ctx.disagree("comprehension: model cannot decode the case (harness codec)", c, m, r)
+            continue
+        if "exc" in r:
+            if not (m[0] == 1 and r["exc"] == "ValueError"):
+                ctx.disagree("comprehension: implementation raises, model does not agree", c, m, r)
+            continue
+        if m[0] != 0:
+            ctx.disagree("comprehension: model raises ValueError, implementation returns", c, m, r)
+            continue
+        ml, menv = dec_label(m[1]), dec_tenv(m[2])
+        if ml != r["label"]:
+            ctx.disagree("comprehension: returned label differs", c, ml, r["label"])
+        elif menv != r["var_types"]:
+            ctx.disagree("comprehension: var_types after _infer_expr_type differ (target bracket)", c, menv, r["var_types"])
+        if r["var_types"] != c["var_types"]:
+            st["var_types_mutated_by_contagion"] += 1
+            continue                      # outside rhs_pure: _to_c_expr infers sub-nodes in another order (contagion is order dependent)
+        if "exc" in t:
+            st["toc_untranslatable"] += 1
+            continue
+        st["toc_compared"] += 1
+        if m[3]:
+            tenv = dec_tenv(m[3][0])
+            if tenv != t["var_types"]:
+                ctx.disagree("comprehension: var_types after _to_c_expr differ (target bracket; constants bound to the names: %s)" % json.dumps(c["vars"], sort_keys=True),
+                             c, tenv, t["var_types"])
+    stats["comprehension_cases"] = st
+    return len(cases)
+
+
 # --------------------------------------------------------------------------- part (a): direct calls
 def part_a(ctx, stats):
     rng = ctx.rng
@@ -272,6 +370,7 @@ def part_a(ctx, stats):
                 ctx.disagree("infer: returned label differs", c, ml, r["label"])
             elif menv != r["var_types"]:
                 ctx.disagree("infer: mutated var_types differ", c, menv, r["var_types"])
+    n_comp = part_a_comp(ctx, stats)
     stats["infer_cases"] = len(cases)
     stats["infer_root_kinds"] = kinds
     stats["infer_labels"] = labels
@@ -331,7 +430,7 @@ def part_a(ctx, stats):
             ctx.disagree("label codec vs _is_list_type/_list_element_type/_make_list_type_label", l, e, r)
     stats["helper_cases"] = {"cpp_type": len(lab_cases), "default_value": len(ctypes), "merge_return_types": len(mr),
                              "merge_return_types_raising": n_raise, "merge_element_types": len(me), "annotation": len(an)}
-    return len(cases) + len(lab_cases) * 2 + len(ctypes) + len(mr) + len(me) + len(an)
+    return len(cases) + n_comp + len(lab_cases) * 2 + len(ctypes) + len(mr) + len(me) + len(an)
 
 
 # --------------------------------------------------------------------------- statement-level programs
@@ -363,6 +462,8 @@ def render_block(stmts, lvl, out):
             out.append(f"{pad}mon.write({st[1]})\n")
         elif k == "return":
             out.append(pad + ("return\n" if st[1] is None else f"return {st[1]}\n"))
+        elif k == "assignc":
+            out.append(f"{pad}{st[1]} = [{st[4]} for {st[2]} in range({st[3]})]\n")
         elif k == "if":
             for i, (c, b) in enumerate(st[1]):
                 out.append(f"{pad}{'if' if i == 0 else 'elif'} {c}:\n")
@@ -400,6 +501,8 @@ def wire_block(stmts):
         k = st[0]
         if k == "assign":
             out.append([0, st[1], W.enc_src(st[2])])
+        elif k == "assignc":
+            out.append([6, st[1], [1, st[2], W.enc_src(st[3]), [0, W.enc_src(st[4])]]])
         elif k == "aug":
             out.append([1, st[1], AUG_OPS[st[2]], W.enc_src(st[3])])
         elif k == "if":
@@ -496,6 +599,9 @@ class TypGen:
                 out.append(("for", rng.choice(["i", "j", "a"]), rng.choice(["3", "a", "2"]), self.block(depth - 1, names, in_fn)))
             elif r < 0.46:
                 out.append(("aug", rng.choice(names), rng.choice(["+", "-", "*", "+"]), self.expr(1, names, calls)))
+            elif r < 0.54:                                   # a comprehension whose target is (mostly) a name of the enclosing scope
+                t = rng.choice(names) if rng.random() < 0.75 else "e"
+                out.append(("assignc", rng.choice(["L1", "L1", "L2"]), t, rng.choice(["3", "2", "a"]), self.expr(rng.choice([0, 1, 1]), names + [t, t], calls)))
             elif in_fn and r < 0.58:
                 out.append(("return", None if rng.random() < 0.12 else self.expr(2, names, calls)))
             else:
@@ -551,6 +657,16 @@ FIXED_PROGRAMS = [
     [("def", "f", ["p"], [("return", None)]), ("stmt", ("assign", "a", "f(1)"))],
     [("def", "f", ["p"], [("return", "'x'"), ("return", "1")])],
     [("def", "f", ["p"], [("return", "p")]), ("stmt", ("assign", "a", "f(1, 2)"))],
+    # comprehension targets shadowing a float / str / undeclared name, at top level, in a def, in the main loop
+    [("stmt", ("assign", "a", "0.0")), ("stmt", ("assignc", "L1", "a", "4", "a * 2")), ("stmt", ("assign", "b", "a * 2"))],
+    [("stmt", ("assign", "s", "''")), ("stmt", ("assignc", "L1", "s", "2", "s + 1")), ("stmt", ("assign", "b", "s")), ("stmt", ("assignc", "L1", "e", "2", "e * 0.5"))],
+    [("def", "f", ["p"], [("assign", "z", "0.0"), ("for", "i", "3", [("assign", "z", "z + 0.5")]), ("assignc", "L1", "z", "p", "z + p"), ("assign", "w", "z * 3"), ("return", "w")]),
+     ("stmt", ("assign", "a", "f(2)")), ("stmt", ("assign", "b", "f(2.5)")), ("loop", [("assign", "c", "False"), ("assignc", "L2", "c", "2", "c"), ("assign", "d", "c")])],
+    # parameters widened by the body: alias-reached variants, call sites in both orders (and the overwritten variant)
+    [("def", "f", ["p", "q"], [("assign", "p", "p + q"), ("return", "p")]), ("stmt", ("assign", "x", "0.5")), ("stmt", ("assign", "a", "f(x, x)")),
+     ("stmt", ("assign", "b", "f(1, x)")), ("stmt", ("assign", "c", "f(2, 3)")), ("stmt", ("assign", "d", "f(True, x)"))],
+    [("def", "f", ["p", "q"], [("assign", "w", "p * 2"), ("aug", "p", "+", "q"), ("return", "p + w")]), ("stmt", ("assign", "x", "0.5")),
+     ("stmt", ("assign", "a", "f(1, x)")), ("stmt", ("assign", "b", "f(x, x)")), ("stmt", ("assign", "c", "f(1, x)"))],
     # the witness programs of C02_loop_hoist_stale_table_refuted / C02_loop_hoist_fresh_table / C02_param_relabel_refuted
     [("stmt", ("assign", "mode", "2")), ("stmt", ("if", [("mode > 1", [("assign", "gain", "1.5")])], [("assign", "gain", "0.5")])),
      ("def", "f", ["p"], [("if", [("p > 1", [("assign", "out", "1")])], [("assign", "out", "2")]), ("return", "out")]),
